@@ -893,7 +893,7 @@ fn gen_ops(rng: &mut Rng, flavor: Flavor) -> Vec<Op> {
     let mut g = HistGen::new();
     let len = rng.urange(12, 45);
     let mut gcfg = GenCfg::standard(len).no_cutters().no_delete_all();
-    gcfg.w = [40, 14, 8, 6, 0, 14, 3, 2, 5, 2, 2, 0, 0];
+    gcfg.w = [40, 14, 8, 6, 0, 14, 3, 2, 5, 2, 2, 0, 0, 0];
     let mut ops = g.history(rng, &gcfg);
     let (chunks, per_chunk, max_words) = match flavor {
         Flavor::Small => (0, 0, 0),
